@@ -215,6 +215,9 @@ def Sim.op (s : Sim) (tok : String) : Option Sim :=
   | ['P'] =>
     let s := s.modelStep (.flush .required s.full false)
     pure (s.emit s!"d={utxoStr (utxoOf s.chain) s.known};m={s.tip}")
+  | ['R'] =>
+    -- graceful restart = required flush; the reloaded cache is empty and names the tip
+    pure ((s.modelStep (.flush .required s.full false)).emit "ok")
   | ['O'] =>
     let u := utxoOf s.chain
     let s := s.known.foldl (fun s o => s.modelStep (.fetch o)) s
